@@ -439,6 +439,16 @@ func txScenarios(tier string) []*Scenario {
 	// two transactions that cross between the same two databases in opposite directions
 	add("tx/EXEC(db0->db1)||EXEC(db1->db0)", [][]string{{"MULTI"}, {"SET", "a", "1"}, {"SELECT", "1"}, {"SET", "a", "2"}, {"EXEC"}}, [][]string{{"SELECT", "1"}, {"MULTI"}, {"SET", "b", "1"}, {"SELECT", "0"}, {"SET", "b", "2"}, {"EXEC"}})
 	add("tx/EXEC(SELECT1,FLUSHALL,DBSIZE)||db1:SET||SET", [][]string{{"MULTI"}, {"SELECT", "1"}, {"FLUSHALL"}, {"DBSIZE"}, {"EXEC"}}, [][]string{{"SELECT", "1"}, {"SET", "fresh", "1"}}, [][]string{{"SET", "fresh0", "1"}})
+	// command numbers are per database and the lock bypass of EXEC goes by number: a transaction that crosses
+	// into database 1 against a connection there whose commands carry every number EXEC could carry
+	for n := 0; n <= 30; n += 2 {
+		other := [][]string{{"SELECT", "1"}}
+		for i := 0; i < n; i++ {
+			other = append(other, []string{"PING"})
+		}
+		other = append(other, []string{"LPOP", "kq"})
+		add(fmt.Sprintf("tx/EXEC(SELECT1,RPUSH,LLEN,LPOP)||db1:PINGx%d+LPOP", n), [][]string{{"MULTI"}, {"SELECT", "1"}, {"RPUSH", "kq", "t"}, {"LLEN", "kq"}, {"LPOP", "kq"}, {"EXEC"}}, other)
+	}
 	// commands that need two databases, inside and outside a transaction
 	add("tx/EXEC(COPY-DB1)||db1:COPY-DB0", [][]string{{"MULTI"}, {"COPY", "a", "c", "DB", "1"}, {"GET", "a"}, {"EXEC"}}, [][]string{{"SELECT", "1"}, {"SET", "z", "1"}, {"COPY", "z", "z2", "DB", "0"}})
 	add("tx/EXEC(MOVE)||db1:MOVE", [][]string{{"MULTI"}, {"MOVE", "a", "1"}, {"EXEC"}}, [][]string{{"SELECT", "1"}, {"SET", "z", "1"}, {"MOVE", "z", "0"}})
